@@ -20,11 +20,11 @@ def decoded_tables(scope='extended'):
     return {'zones': zones, 'policies': pols}
 
 
-def run_py(data, work, mode, tag):
+def run_py(data, work, mode, tag, extra=()):
     inp = os.path.join(work, 'zs-in-%s.json' % tag)
     outp = os.path.join(work, 'zs-out-%s.json' % tag)
     json.dump(data, open(inp, 'w'))
-    rc, out, err, _ = common.run_cmd([common.PY, PYZS, inp, outp, mode], env=compiler.tool_env(), timeout=7000)
+    rc, out, err, _ = common.run_cmd([common.PY, PYZS, inp, outp, mode] + list(extra), env=compiler.tool_env(), timeout=7000)
     if rc != 0:
         return None, err[-2000:]
     return json.load(open(outp)), None
@@ -146,8 +146,29 @@ def run(tier):
         model_path = os.path.join(work, 'model-wall.json')
         tzparse.write_model(model_path, rules, zones, only=set(wz))
         tzconf.judge_wall(chk, 'zonedbx:python:wall', 'extended', work, model_path, wz, wobs, 'later', 'raw')
+    # algorithm level: the per-year transition table of a fresh ZoneSpecifier (default options) and of a never-used
+    # ExtendedZoneProcessor are the same table, namely the one ExtProc.tla computes -- every zone x year 1999..2050
+    from .. import extproc
+    pt, err = run_py(data, work, 'tables', 'tables', extra=('1999', '2050'))
+    ntab = 0
+    if pt is None:
+        chk.violation('python:tables-crash', 'ZoneSpecifier table driver failed: %s' % err, {'stderr': err})
+    else:
+        for n, ys in pt['tables'].items():
+            for y, v in ys.items():
+                if 'error' in v:
+                    chk.violation('python:%s:%s:init-error' % (n, y), 'ZoneSpecifier(%s).init_for_year(%s) raised %s' % (n, y, v['error']), {'zone': n, 'year': y})
+        dd = common.build_binary('dbdump', ['dbdump.cpp'], 'opt')
+        pdrv = common.build_binary('pairdrv', ['pairdrv.cpp'], 'opt')
+        dt = extproc.dump_tables(dd, 'extended')
+        w2 = os.path.join(work, 'extproc')
+        os.makedirs(w2, exist_ok=True)
+        extproc.check_tables(chk, 'python-zonespecifier', dt, pt['tables'], None, w2, invariants=[])
+        extproc.check_tables(chk, 'cpp-extended', dt, extproc.impl_tables(pdrv, len(dt['zones']), 1999, 2050), None, w2, invariants=[])
+        ntab = sum(len(v) for v in pt['tables'].values())
+    chk.add(tables_python_and_cpp_bound_to_extproc=ntab)
     chk.add(states=r.distinct, transitions=r.generated, python_observations=py['nobs'] + pyd.get('nobs', 0), option_combinations_compared=ncomb,
             zones_all_options=len(only), zones_default_options=len(rest), wall_windows=nwall,
-            rule='the shipped zonedbx tables decoded through the C++ brokers into the Python data model; ZoneSpecifier swept over 2000..2049 (daily grid, every change bisected to the second) with all 8 option combinations on %d zones and the default options on the rest; all must equal each other, the C++ ExtendedZoneProcessor sweep (offset, DST amount, abbreviation) and be accepted by TzSem.tla; local date-times within +-3 h of every transition plus random ones: both implementations must select the same offset, judged by TLC against Allowed(w, later)' % len(only))
+            rule='the shipped zonedbx tables decoded through the C++ brokers into the Python data model; ZoneSpecifier swept over 2000..2049 (daily grid, every change bisected to the second) with all 8 option combinations on %d zones and the default options on the rest; all must equal each other, the C++ ExtendedZoneProcessor sweep (offset, DST amount, abbreviation) and be accepted by TzSem.tla; local date-times within +-3 h of every transition plus random ones: both implementations must select the same offset, judged by TLC against Allowed(w, later); the per-year transition tables of ZoneSpecifier and of ExtendedZoneProcessor both equal ExtProc.tla for every zone x year 1999..2050' % len(only))
     chk.sample({'zone': 'America/Los_Angeles', 'python_pieces': pypieces.get('America/Los_Angeles', [])[:3]})
     return chk.finish()
